@@ -166,12 +166,23 @@ class VM:
             raise VMError('destination is not a state word')
         return self.a.eval(o.expr)
 
+    def snapshot(self):
+        return (bytearray(self.mem), len(self.events), len(self.accesses))
+
+    def restore(self, snap):
+        mem, le, la = snap
+        self.mem = mem; del self.events[le:]; del self.accesses[la:]
+
+    def resolve(self, tgt):
+        """code address -> index into self.code (identity for whole programs)"""
+        return tgt
+
     def _halt(self):
         if not self.choices:
             return False
-        tgt, mem, le, la = self.choices.pop()
-        self.mem = mem; del self.events[le:]; del self.accesses[la:]
-        self.pc = tgt
+        tgt, snap = self.choices.pop()
+        self.restore(snap)
+        self.pc = self.resolve(tgt)
         return True
 
     def step(self):
@@ -194,7 +205,7 @@ class VM:
                 return self._halt()
         elif op == 'j':
             tgt = self.val(A[0])
-            self.choices.append((tgt, bytearray(self.mem), len(self.events), len(self.accesses)))
+            self.choices.append((tgt, self.snapshot()))
         elif op in R.ARITH:
             d = self.dest(A[0]); a = self.val(A[1]); b = self.val(A[2]); sa, sb = self.sx(a), self.sx(b)
             if op == 'add': v = a + b
